@@ -678,16 +678,17 @@ namespace chaiscript {
         Function_Push_Pop &operator=(const Function_Push_Pop &) = delete;
 
         explicit Function_Push_Pop(const chaiscript::detail::Dispatch_State &t_ds)
-            : m_ds(t_ds) {
-          m_ds->new_function_call(m_ds.stack_holder(), m_ds.conversion_saves());
+            : m_ds(t_ds)
+            , m_pending_conversions(m_ds->new_function_call(m_ds.stack_holder(), m_ds.conversion_saves())) {
         }
 
-        ~Function_Push_Pop() { m_ds->pop_function_call(m_ds.stack_holder(), m_ds.conversion_saves()); }
+        ~Function_Push_Pop() { m_ds->pop_function_call(m_ds.stack_holder(), m_ds.conversion_saves(), m_pending_conversions); }
 
         void save_params(const Function_Params &t_params) { m_ds->save_function_params(t_params); }
 
       private:
         const chaiscript::detail::Dispatch_State &m_ds;
+        std::size_t m_pending_conversions;
       };
 
       /// Creates a new scope then pops it on destruction
